@@ -4,6 +4,7 @@ use crate::explore::{Ctx, Meta, Report, Tier};
 pub mod buildcheck;
 pub mod c01;
 pub mod c02;
+pub mod c04;
 pub mod c06;
 pub mod c07;
 pub mod c08;
@@ -29,6 +30,8 @@ pub fn meta(id: &str) -> Option<Meta> {
     Some(match id {
         "C01" => c01::meta(),
         "C02" => c02::meta(),
+        "C04" => c04::meta("C04"),
+        "C05" => c04::meta("C05"),
         "C06" => c06::meta(),
         "C07" => c07::meta(),
         "C08" => c08::meta(),
@@ -58,6 +61,8 @@ pub fn run_worker(id: &str, ctx: &Ctx, rep: &mut Report) {
     match id {
         "C01" => c01::run(ctx, rep),
         "C02" => c02::run(ctx, rep),
+        "C04" => c04::run(ctx, rep, "C04"),
+        "C05" => c04::run(ctx, rep, "C05"),
         "C06" => c06::run(ctx, rep),
         "C07" => c07::run(ctx, rep),
         "C08" => c08::run(ctx, rep),
@@ -92,6 +97,8 @@ pub fn replay(id: &str, case: &serde_json::Value) -> Result<Option<String>, Stri
     match id {
         "C01" => c01::replay(case),
         "C02" => c02::replay(case),
+        "C04" => c04::replay("C04", case),
+        "C05" => c04::replay("C05", case),
         "C06" => c06::replay(case),
         "C09" => c09::replay(case),
         "C12" => c12::replay(case),
